@@ -138,7 +138,20 @@ var frameAssumptions = []string{
 
 func init() {
 	checkDefs["C02"] = &CheckDef{
-		Property: "C02", Jobs: func(t string) []*Job { return frameJobsFor(t, 0) }, Bounds: frameBounds, Outside: frameOutside, Assumptions: frameAssumptions,
+		Property: "C02",
+		Jobs: func(t string) []*Job {
+			jobs := append(frameJobsFor(t, 0), concWriterJobs(t)...)
+			for _, j := range concReaderJobs(t) {
+				if j.Params["dmg"] == 0 && j.Params["reuse"] == 0 {
+					jobs = append(jobs, j)
+				}
+			}
+			return jobs
+		},
+		Bounds: func(t string) []string {
+			return append(frameBounds(t), "concurrency: the 13 call sequences of the concurrent Writer (ConcurrencyOption 2, 3; thorough 4) read back by the real Reader, and frames of 1..3 (4) blocks read by a concurrent Reader through Read (small and block-size buffers) and WriteTo, under every schedule within the delay bound (see C08)")
+		},
+		Outside: frameOutside, Assumptions: append([]string{concAssumptions[0], concAssumptions[1]}, frameAssumptions...),
 		Filter: func(id string) bool { return hasPrefix(id, "rt-") || hasPrefix(id, "no-panic") || hasPrefix(id, "unwind") },
 	}
 	checkDefs["C09"] = &CheckDef{
